@@ -746,10 +746,15 @@ class CacheSim(Interp):
         self.cached = {}
         self.admit = admit or (lambda fr: True)
 
+    def can_lookup(self, has_input, extra):
+        return not has_input and not extra
+
+    def can_store(self, has_input, extra):
+        return not has_input and not extra
+
     def query(self, actions, filename, absolute, input_value, has_input, extra):
-        plain = not has_input and not extra
         key = canonical(actions, filename, absolute)
-        if plain and key in self.cached:
+        if self.can_lookup(has_input, extra) and key in self.cached:
             return self.cached[key].copy()
         n = len(actions)
         if filename is not None:
@@ -760,7 +765,7 @@ class CacheSim(Interp):
         else:
             pre = self.query(actions[:-1], None, absolute, input_value, has_input, None)
             fr = self.step(pre, actions, n - 1, absolute, input_value, has_input, extra)
-        if plain and frame_cacheable(fr) and self.admit(fr):
+        if self.can_store(has_input, extra) and frame_cacheable(fr) and self.admit(fr):
             self.cached[key] = fr.copy()
         return fr
 
@@ -778,6 +783,47 @@ class CacheSim(Interp):
             calls = list(CALLS)
             CALLS[:] = saved
         return calls, fr
+
+
+class PollutedSim(CacheSim):
+    """Model of the CONSEQUENCES of one defect, used only to classify observed violations: Context.evaluate(q, input_value=v) without
+    input_value_specified bypasses the cache lookup but stores q and all its prefixes under their plain keys (and evaluates relative
+    links without the input)."""
+
+    def __init__(self):
+        CacheSim.__init__(self)
+        self.variant = {"rel_link_without_input"}
+
+    def can_store(self, has_input, extra):
+        return not extra
+
+    def play(self, history):
+        saved = list(CALLS)
+        try:
+            for op in history:
+                k = op[0]
+                try:
+                    if k == "eval":
+                        self.run(op[1])
+                    elif k == "eval_input":
+                        absolute, actions, filename = _split_query(parse(op[2]))
+                        self.query(actions, filename, absolute, op[1], True, None)
+                    elif k == "eval_extra":
+                        absolute, actions, filename = _split_query(parse(op[2]))
+                        if actions:
+                            self.query(actions[:-1], None, absolute, None, False, None)
+                        self.cached.pop(parse(op[2]).encode(), None)
+                    elif k == "remove":
+                        self.cached.pop(op[1], None)
+                    elif k == "clean":
+                        self.cached.clear()
+                except SemFailure:
+                    pass
+                except Exception:
+                    pass
+        finally:
+            CALLS[:] = saved
+        return self
 
 
 VARIANT = set()   # names of *deviations* switched on to classify an observed defect (never on for the reference itself)
@@ -1431,3 +1477,12 @@ def Counter_surplus(real_calls, allowed_calls):
     from collections import Counter
     d = Counter(json.dumps(c, sort_keys=True, default=str) for c in real_calls) - Counter(json.dumps(c, sort_keys=True, default=str) for c in allowed_calls)
     return [json.loads(k) for k in d.elements()]
+
+
+def canonical_parent(canon_query):
+    """canonical text of the query the LAST ACTION of canon_query was applied to (a trailing file name is not an action)"""
+    q = parse(canon_query)
+    if q.filename() is not None:
+        q, _r = q.predecessor()
+    p, _r = q.predecessor()
+    return "" if p is None else p.encode()
